@@ -506,7 +506,7 @@ pub fn run_c01(ctx: &Ctx, out: &mut Out) {
         let ietf = r["args"].as_array().map(|a| a.iter().any(|x| x == "13")).unwrap_or(false);
         only_op = Some((r["operator"].as_str().unwrap_or("").to_string(), if ietf { Proto::Ietf } else { Proto::Classic }));
     }
-    let ntrials = if only_op.is_some() { 12 } else { ctx.share(1_600, 64_000) };
+    let ntrials = if only_op.is_some() { 12 } else { ctx.share(3_200, 64_000) };
     for t in 0..ntrials {
         let gi = t * ctx.nshards + ctx.shard;
         let proto = if gi % 2 == 0 { Proto::Classic } else { Proto::Ietf };
@@ -688,7 +688,7 @@ pub fn run_c03(ctx: &Ctx, out: &mut Out) {
     let evil = RefServer::new(&mut rng);
     // (a) honest reference responder
     let secs_grid: [u64; 12] = [0, 1, 59, 86_399, 86_400, (1 << 31) - 1, 1 << 31, (1u64 << 32) - 1, 1 << 32, 7_258_118_400, 253_402_300_799, 1_700_000_000];
-    let ntrials = ctx.share(1_280, 48_000);
+    let ntrials = ctx.share(16_000, 96_000);
     for t in 0..ntrials {
         let gi = t * ctx.nshards + ctx.shard;
         let proto = if gi % 2 == 0 { Proto::Classic } else { Proto::Ietf };
